@@ -8,7 +8,7 @@ func init() {
 			"plus the lock-free skiplist's local obligations (publish before index, marking CAS, single winner, search restarts) shared with C13.",
 		Assumptions: []string{"plain reads of 32-bit epoch stamps are tolerated (aligned loads do not tear on the supported targets); this is a data race in the Go memory model that the check does not adjudicate"},
 		Run: func(c *Ctx) {
-			c.Do("C03.a", "L1 winner-only side effects", 9, func() { clDeleteNodeWinner(c) })
+			c.Do("C03.a", "L1 winner-only side effects", 9, func() { clDeleteNodeWinner(c); clComparatorRoles(c, map[string]bool{"field:store": true}) })
 			c.Do("C03.b", "L10 atomic-write discipline", 10, func() { clAtomicWriteDiscipline(c) })
 			c.Do("C03.c", "L6 CAS outcomes consumed", 8, func() { clCASOutcomesConsumed(c) })
 			c.Do("C03.d", "L2+L5 skiplist local obligations (shared with C13)", 12, func() {
